@@ -167,6 +167,12 @@ def _work(args):
         ev.case(key, nt, sample={"consumer": cname, "file": target, "damage": list(dmg), "outcome": "rc=%s %s" % (r.rc, (r.text()[:120]).replace("\n", " | "))} if nt and len(ev.samples) < 2 else None,
                 classes=["consumer_" + cname, "damage_" + dmg[0], "outcome_" + (v[0] if v else ("same" if r.rc == 0 else "refused"))])
         if v is not None:
+            # reproduce before reporting (a one-off difference under load is counted as inconclusive, not as a verdict)
+            r2, produced2 = run_consumer(tc, files, cname, data, hashlib.sha256((key + "|again").encode()).hexdigest()[:10])
+            v2 = judge(tc, r2, produced2, refs[cname])
+            if v2 is None or v2[0] != v[0]:
+                ev.inconclusive += 1
+                continue
             kind, site = v
             region = "body"
             if target.endswith(".ao") and dmg[1] < AO_HEADER:
